@@ -1,5 +1,698 @@
 import BarterModel.Lemmas.Metrics
+/-!
+# C16M (sub-check of C16) — risk-adjusted return metrics and time-interval scaling
+
+Statements about the model of `SharpeRatio` / `SortinoRatio` / `CalmarRatio` / `RateOfReturn`
+(`calculate`, `scale`), the `TimeInterval` implementations and `TearSheetGenerator::generate`
+(`Model/Metrics.lean`). Numbers are exact rationals. `Decimal::sqrt` is never assumed to be anything:
+every theorem about `scale` is stated for an arbitrary `law : Rat → Rat` (the square root for the
+three ratios, the identity for `RateOfReturn`) and names, as a hypothesis about `law` *at the
+arguments that occur*, exactly what it needs (`law 1 = 1`, `law (a*b) = law a * law b`, `0 ≤ law a`).
+
+"No saturation" hypotheses (`InRange (v * s)`) say that the product fits a `Decimal`; what happens
+otherwise is the subject of the saturation theorems of §4, which include the two ways in which
+`scale` does **not** preserve the zero-risk conventions of `calculate` (`Decimal::MIN` turns into
+`Decimal::MAX`; `Decimal::MAX` shrinks to a finite number).
+-/
 namespace BarterModel.Props.C16M
-open BarterModel.Metrics
-theorem ror_calculate_value (m : Rat) (p : Interval) : (RateOfReturn.calculate m p).value = m := rfl
+open BarterModel BarterModel.Metrics
+
+/-- A value a `Decimal` can hold. -/
+def InRange (v : Rat) : Prop := v.abs ≤ decimalMax
+
+instance (v : Rat) : Decidable (InRange v) := inferInstanceAs (Decidable (v.abs ≤ decimalMax))
+
+/-! ## 1. Time intervals -/
+
+/-- An interval of exactly `k` seconds has `secs = k`. -/
+theorem secs_of_whole (i : Interval) (k : Int) (h : i.interval = 1000 * k) : i.secs = (k : Rat) := by
+  simp [Interval.secs, h, numSeconds_whole]
+/-- `Daily`, `Annual252`, `Annual365` are 1, 252 and 365 days of 86 400 s. -/
+theorem named_interval_secs :
+    Interval.daily.secs = 86400 ∧ Interval.annual252.secs = 21772800 ∧
+    Interval.annual365.secs = 31536000 := by
+  refine ⟨?_, ?_, ?_⟩
+  · rw [secs_of_whole .daily 86400 (by decide)]; rfl
+  · rw [secs_of_whole .annual252 21772800 (by decide)]; rfl
+  · rw [secs_of_whole .annual365 31536000 (by decide)]; rfl
+
+/-- A `TimeDelta` of a whole number of seconds is seen exactly … -/
+theorem delta_secs_whole (k : Int) : (Interval.delta (1000 * k)).secs = (k : Rat) := by
+  simp [Interval.secs, Interval.interval, numSeconds_whole]
+
+/-- … any other one is truncated toward zero: `|secs| ≤ length < |secs| + 1` (length in seconds). -/
+theorem secs_truncates (i : Interval) : i.secs.abs ≤ i.length ∧ i.length < i.secs.abs + 1 :=
+  secs_abs_le_length i
+
+/-- The names (`TimeInterval::name`); a `TimeDelta` is named by its whole minutes. -/
+theorem interval_names (ms : Int) :
+    Interval.daily.name = "Daily" ∧ Interval.annual252.name = "Annual(252)" ∧
+    Interval.annual365.name = "Annual(365)" ∧
+    (Interval.delta ms).name = "Duration " ++ toString (Int.tdiv (Int.tdiv ms 1000) 60) ++ " (minutes)" :=
+  ⟨rfl, rfl, rfl, rfl⟩
+
+/-- Number of days in the two annual conventions. -/
+theorem periods_daily_annual :
+    periods .daily .annual252 = 252 ∧ periods .daily .annual365 = 365 ∧
+    periods .annual252 .daily = 1 / 252 ∧ periods .annual365 .daily = 1 / 365 := by
+  obtain ⟨h1, h2, h3⟩ := named_interval_secs
+  have a1 : Interval.daily.secs.abs = 86400 := by rw [h1]; exact Rat.abs_of_nonneg (by grind)
+  have a2 : Interval.annual252.secs.abs = 21772800 := by rw [h2]; exact Rat.abs_of_nonneg (by grind)
+  have a3 : Interval.annual365.secs.abs = 31536000 := by rw [h3]; exact Rat.abs_of_nonneg (by grind)
+  have n1 : Interval.daily.secs ≠ 0 := by rw [h1]; grind
+  have n2 : Interval.annual252.secs ≠ 0 := by rw [h2]; grind
+  have n3 : Interval.annual365.secs ≠ 0 := by rw [h3]; grind
+  refine ⟨?_, ?_, ?_, ?_⟩
+  · rw [periods_eq_div n1, a1, a2]; grind
+  · rw [periods_eq_div n1, a1, a3]; grind
+  · rw [periods_eq_div n2, a1, a2]; grind
+  · rw [periods_eq_div n3, a1, a3]; grind
+
+/-! ## 2. `calculate` -/
+
+/-- Sharpe: `(mean − rf) / σ`, and `Decimal::MAX` when `σ = 0`; the interval is carried along. -/
+theorem sharpe_calculate_refines (rf m s : Rat) (p : Interval) :
+    (SharpeRatio.calculate rf m s p).value = (specSharpe rf m s).toDecimal ∧
+    (SharpeRatio.calculate rf m s p).interval = p :=
+  ⟨sharpe_value rf m s p, by unfold SharpeRatio.calculate; split <;> rfl⟩
+
+/-- Sortino: `(mean − rf) / downside deviation` with the three documented zero-risk conventions
+(`MAX` / `MIN` / `0` for positive / negative / no excess return). -/
+theorem sortino_calculate_refines (rf m s : Rat) (p : Interval) :
+    (SortinoRatio.calculate rf m s p).value = (specSortino rf m s).toDecimal ∧
+    (SortinoRatio.calculate rf m s p).interval = p :=
+  ⟨sortino_value rf m s p, by unfold SortinoRatio.calculate; split <;> rfl⟩
+
+/-- Calmar: `(mean − rf) / |max drawdown|` with the same three conventions. -/
+theorem calmar_calculate_refines (rf m d : Rat) (p : Interval) :
+    (CalmarRatio.calculate rf m d p).value = (specCalmar rf m d).toDecimal ∧
+    (CalmarRatio.calculate rf m d p).interval = p :=
+  ⟨calmar_value rf m d p, by unfold CalmarRatio.calculate; split <;> rfl⟩
+
+/-- Rate of return: the mean return itself. -/
+theorem ror_calculate_refines (m : Rat) (p : Interval) :
+    RateOfReturn.calculate m p = ⟨m, p⟩ := rfl
+
+/-- The sign of a negative drawdown is ignored ("absolute value is used"). -/
+theorem calmar_abs_drawdown (rf m d : Rat) (p : Interval) :
+    CalmarRatio.calculate rf m (-d) p = CalmarRatio.calculate rf m d p := by
+  rw [calmar_eq_sortino, calmar_eq_sortino, Rat.abs_neg]
+
+/-- Calmar is Sortino with `|max drawdown|` as the risk; with a non-zero risk all three ratios are
+the same function of (risk-free, mean, risk). -/
+theorem ratio_metrics_agree (rf m r : Rat) (p : Interval) :
+    CalmarRatio.calculate rf m r p = SortinoRatio.calculate rf m r.abs p ∧
+    (r ≠ 0 → SharpeRatio.calculate rf m r p = SortinoRatio.calculate rf m r p) := by
+  refine ⟨calmar_eq_sortino rf m r p, fun hr => ?_⟩
+  simp [SharpeRatio.calculate, SortinoRatio.calculate, hr]
+
+/-- Only the excess return matters: shifting mean and risk-free return together changes nothing. -/
+theorem calculate_excess_only (rf m r c : Rat) (p : Interval) :
+    SharpeRatio.calculate (rf + c) (m + c) r p = SharpeRatio.calculate rf m r p ∧
+    SortinoRatio.calculate (rf + c) (m + c) r p = SortinoRatio.calculate rf m r p ∧
+    CalmarRatio.calculate (rf + c) (m + c) r p = CalmarRatio.calculate rf m r p := by
+  have e : m + c - (rf + c) = m - rf := by grind
+  have l1 : (rf + c < m + c) = (rf < m) := by apply propext; constructor <;> intro h <;> grind
+  have l2 : (m + c < rf + c) = (m < rf) := by apply propext; constructor <;> intro h <;> grind
+  refine ⟨?_, ?_, ?_⟩
+  · simp only [SharpeRatio.calculate, e]
+  · simp only [SortinoRatio.calculate, e, l1, l2]
+  · simp only [CalmarRatio.calculate, e, l1, l2]
+
+/-- Sortino (risk ≥ 0) has the sign of the excess return — in the zero-risk conventions too. -/
+theorem sortino_sign (rf m s : Rat) (p : Interval) (hs : 0 ≤ s) :
+    let v := (SortinoRatio.calculate rf m s p).value
+    (0 < v ↔ rf < m) ∧ (v < 0 ↔ m < rf) ∧ (v = 0 ↔ m = rf) := by
+  have hmax : (0 : Rat) < decimalMax := decimalMax_pos
+  have hmin : decimalMin < 0 := by decide
+  unfold SortinoRatio.calculate
+  by_cases h0 : s = 0
+  · simp only [h0, if_true]
+    by_cases h1 : rf < m
+    · simp only [h1, if_true]; grind
+    · by_cases h2 : m < rf
+      · simp only [h1, h2, if_true, if_false]; grind
+      · simp only [h1, h2, if_false]; grind
+  · have hpos : 0 < s := by grind
+    simp only [h0, if_false]
+    have key : ∀ x : Rat, (0 < x / s ↔ 0 < x) ∧ (x / s < 0 ↔ x < 0) ∧ (x / s = 0 ↔ x = 0) := by
+      intro x
+      have e : x / s * s = x := Rat.div_mul_cancel h0
+      refine ⟨⟨fun h => ?_, fun h => ?_⟩, ⟨fun h => ?_, fun h => ?_⟩, ⟨fun h => ?_, fun h => ?_⟩⟩
+      · have := Rat.mul_pos h hpos; grind
+      · rw [Rat.lt_div_iff hpos]; grind
+      · have : 0 < -(x / s) * s := Rat.mul_pos (by grind) hpos
+        grind
+      · rw [Rat.div_lt_iff hpos]; grind
+      · rw [h] at e; grind
+      · rw [h, Rat.div_def, Rat.zero_mul]
+    have := key (m - rf)
+    grind
+
+/-- Calmar has the sign of the excess return for every drawdown value. -/
+theorem calmar_sign (rf m d : Rat) (p : Interval) :
+    let v := (CalmarRatio.calculate rf m d p).value
+    (0 < v ↔ rf < m) ∧ (v < 0 ↔ m < rf) ∧ (v = 0 ↔ m = rf) := by
+  rw [calmar_eq_sortino]; exact sortino_sign rf m d.abs p Rat.abs_nonneg
+
+/-- Sharpe has the sign of the excess return when there is dispersion (`σ > 0`) … -/
+theorem sharpe_sign (rf m s : Rat) (p : Interval) (hs : 0 < s) :
+    let v := (SharpeRatio.calculate rf m s p).value
+    (0 < v ↔ rf < m) ∧ (v < 0 ↔ m < rf) ∧ (v = 0 ↔ m = rf) := by
+  have hne : s ≠ 0 := by grind
+  rw [(ratio_metrics_agree rf m s p).2 hne]
+  exact sortino_sign rf m s p (by grind)
+
+/-- … but with `σ = 0` it is `Decimal::MAX` whatever the excess return is — unlike Sortino and
+Calmar, a negative excess return is *not* reported as `Decimal::MIN`. -/
+theorem sharpe_zero_std_dev (rf m : Rat) (p : Interval) :
+    (SharpeRatio.calculate rf m 0 p).value = decimalMax := by
+  simp [SharpeRatio.calculate]
+
+/-- More mean return never lowers Sortino / Calmar (zero-risk conventions included), nor Sharpe. -/
+theorem sortino_mono_mean (rf m1 m2 s : Rat) (p : Interval) (hs : 0 ≤ s) (hm : m1 ≤ m2) :
+    (SortinoRatio.calculate rf m1 s p).value ≤ (SortinoRatio.calculate rf m2 s p).value := by
+  have hmax : (0 : Rat) < decimalMax := decimalMax_pos
+  have hmin : decimalMin < 0 := by decide
+  unfold SortinoRatio.calculate
+  by_cases h0 : s = 0
+  · simp only [h0, if_true]
+    by_cases a1 : rf < m1 <;> by_cases a2 : rf < m2 <;> by_cases b1 : m1 < rf <;> by_cases b2 : m2 < rf <;>
+      simp only [a1, a2, b1, b2, if_true, if_false] <;> grind
+  · have hpos : 0 < s := by grind
+    simp only [h0, if_false]
+    rw [div_le_iff' hpos, Rat.div_mul_cancel h0]
+    grind
+
+theorem calmar_mono_mean (rf m1 m2 d : Rat) (p : Interval) (hm : m1 ≤ m2) :
+    (CalmarRatio.calculate rf m1 d p).value ≤ (CalmarRatio.calculate rf m2 d p).value := by
+  rw [calmar_eq_sortino, calmar_eq_sortino]
+  exact sortino_mono_mean rf m1 m2 d.abs p Rat.abs_nonneg hm
+
+theorem sharpe_mono_mean (rf m1 m2 s : Rat) (p : Interval) (hs : 0 ≤ s) (hm : m1 ≤ m2) :
+    (SharpeRatio.calculate rf m1 s p).value ≤ (SharpeRatio.calculate rf m2 s p).value := by
+  by_cases h0 : s = 0
+  · subst h0; rw [sharpe_zero_std_dev, sharpe_zero_std_dev]; exact Rat.le_refl
+  · rw [(ratio_metrics_agree rf m1 s p).2 h0, (ratio_metrics_agree rf m2 s p).2 h0]
+    exact sortino_mono_mean rf m1 m2 s p hs hm
+
+/-! ## 3. `scale`: one body, two laws
+
+The four `scale` functions are the same code: multiply by `law (target_secs / current_secs)`,
+saturating at `Decimal::MAX`; `law` is `Decimal::sqrt` for the three ratios and the identity for
+`RateOfReturn`. -/
+
+theorem scale_is_scaleWith (sqrtFn : Rat → Rat) :
+    SharpeRatio.scale sqrtFn = Metric.scaleWith sqrtFn ∧
+    SortinoRatio.scale sqrtFn = Metric.scaleWith sqrtFn ∧
+    CalmarRatio.scale sqrtFn = Metric.scaleWith sqrtFn ∧
+    RateOfReturn.scale = Metric.scaleWith id := ⟨rfl, rfl, rfl, rfl⟩
+
+/-- The result carries the target interval. -/
+theorem scale_interval (law : Rat → Rat) (m : Metric) (t : Interval) :
+    (m.scaleWith law t).interval = t := rfl
+
+/-- The factor is the quotient of the two lengths in whole seconds (signs ignored) whenever the
+current interval has at least one second … -/
+theorem scale_factor {c t : Interval} (hc : c.secs ≠ 0) : periods c t = t.secs.abs / c.secs.abs :=
+  periods_eq_div hc
+
+/-- … and `Decimal::MAX` when it has none (`checked_div` by zero). It is never negative, so the
+`.expect("ensured seconds are Positive")` after `sqrt` cannot fire. -/
+theorem scale_factor_zero_current {c t : Interval} (hc : c.secs = 0) : periods c t = decimalMax :=
+  periods_zero_current hc
+
+theorem scale_factor_nonneg (c t : Interval) : 0 ≤ periods c t := periods_nonneg c t
+
+/-- **Value law.** If the product fits a `Decimal`, scaling multiplies by `law (|T| / |S|)`:
+by `√(T/S)` for Sharpe / Sortino / Calmar, by `T/S` for the rate of return. -/
+theorem scale_value (law : Rat → Rat) (v : Rat) {c t : Interval} (hc : c.secs ≠ 0)
+    (hfit : InRange (v * law (t.secs.abs / c.secs.abs))) :
+    (Metric.scaleWith law ⟨v, c⟩ t).value = v * law (t.secs.abs / c.secs.abs) := by
+  rw [scaleWith_value]; simp only [periods_eq_div hc]; exact scaleVal_eq hfit
+
+/-- Rate of return: linear in time. -/
+theorem ror_scale_linear (v : Rat) {c t : Interval} (hc : c.secs ≠ 0)
+    (hfit : InRange (v * (t.secs.abs / c.secs.abs))) :
+    (RateOfReturn.scale ⟨v, c⟩ t).value = v * (t.secs.abs / c.secs.abs) :=
+  scale_value id v hc hfit
+
+/-- "a 1% daily return scales to approximately 252% annual return (not √252%)". -/
+theorem ror_scale_daily_to_annual252 (v : Rat) (hfit : InRange (v * 252)) :
+    (RateOfReturn.scale ⟨v, .daily⟩ .annual252).value = v * 252 := by
+  have h := periods_daily_annual.1
+  have : (Metric.scaleWith id ⟨v, .daily⟩ .annual252).value = scaleVal v (id (periods .daily .annual252)) :=
+    scaleWith_value id _ _
+  rw [RateOfReturn.scale, this, h]; exact scaleVal_eq hfit
+
+/-- Sharpe daily → annual(252): multiplied by `sqrt 252`, whatever `sqrt` computes. -/
+theorem sharpe_scale_daily_to_annual252 (sqrtFn : Rat → Rat) (v : Rat)
+    (hfit : InRange (v * sqrtFn 252)) :
+    (SharpeRatio.scale sqrtFn ⟨v, .daily⟩ .annual252).value = v * sqrtFn 252 := by
+  have h := periods_daily_annual.1
+  have : (Metric.scaleWith sqrtFn ⟨v, .daily⟩ .annual252).value =
+      scaleVal v (sqrtFn (periods .daily .annual252)) := scaleWith_value sqrtFn _ _
+  rw [SharpeRatio.scale, this, h]; exact scaleVal_eq hfit
+
+/-- The result always is a `Decimal`: between `Decimal::MIN` and `Decimal::MAX`. -/
+theorem scale_in_range (law : Rat → Rat) (m : Metric) (t : Interval) :
+    decimalMin ≤ (m.scaleWith law t).value ∧ (m.scaleWith law t).value ≤ decimalMax :=
+  scaleVal_bounds _ _
+
+/-- **Same interval = identity** (needs `law 1 = 1`; the interval must have a second). -/
+theorem scale_same_interval (law : Rat → Rat) (h1 : law 1 = 1) (m : Metric)
+    (hs : m.interval.secs ≠ 0) (hv : InRange m.value) : m.scaleWith law m.interval = m := by
+  have : (m.scaleWith law m.interval).value = m.value := by
+    rw [scaleWith_value, periods_self hs, h1]; exact scaleVal_one hv
+  cases m; simp_all [Metric.scaleWith]
+
+/-- **Scale then scale = scale.** Going `A → B → C` is going `A → C`, provided the law is
+multiplicative at the two factors involved and the intermediate value fits (`A`, `B` of at least a
+second). Saturation of the final product is the same on both sides, so nothing is assumed about it. -/
+theorem scale_scale (law : Rat → Rat) (v : Rat) {a b : Interval} (c : Interval)
+    (ha : a.secs ≠ 0) (hb : b.secs ≠ 0)
+    (hmul : law (periods a b * periods b c) = law (periods a b) * law (periods b c))
+    (hfit : InRange (v * law (periods a b))) :
+    (Metric.scaleWith law ⟨v, a⟩ b).scaleWith law c = Metric.scaleWith law ⟨v, a⟩ c := by
+  have hv : ((Metric.scaleWith law ⟨v, a⟩ b).scaleWith law c).value =
+      (Metric.scaleWith law ⟨v, a⟩ c).value := by
+    rw [scaleWith_value, scaleWith_value, scaleWith_value, scaleWith_interval]
+    simp only
+    rw [scaleVal_assoc _ hfit, ← hmul, periods_mul c ha hb]
+  simp_all [Metric.scaleWith]
+
+/-- **Round trip.** `A → B → A` is the identity (law multiplicative at the two reciprocal factors,
+`law 1 = 1`, intermediate value fits). -/
+theorem scale_round_trip (law : Rat → Rat) (h1 : law 1 = 1) (v : Rat) {a b : Interval}
+    (ha : a.secs ≠ 0) (hb : b.secs ≠ 0)
+    (hmul : law (periods a b * periods b a) = law (periods a b) * law (periods b a))
+    (hfit : InRange (v * law (periods a b))) (hv : InRange v) :
+    (Metric.scaleWith law ⟨v, a⟩ b).scaleWith law a = ⟨v, a⟩ := by
+  rw [scale_scale law v a ha hb hmul hfit]
+  exact scale_same_interval law h1 ⟨v, a⟩ ha hv
+
+/-- For the rate of return the law is the identity, which is multiplicative everywhere: the two
+laws above hold with the fit hypothesis only. -/
+theorem ror_scale_scale (v : Rat) {a b : Interval} (c : Interval) (ha : a.secs ≠ 0) (hb : b.secs ≠ 0)
+    (hfit : InRange (v * periods a b)) :
+    RateOfReturn.scale (RateOfReturn.scale ⟨v, a⟩ b) c = RateOfReturn.scale ⟨v, a⟩ c :=
+  scale_scale id v c ha hb rfl hfit
+
+theorem ror_scale_round_trip (v : Rat) {a b : Interval} (ha : a.secs ≠ 0) (hb : b.secs ≠ 0)
+    (hfit : InRange (v * periods a b)) (hv : InRange v) :
+    RateOfReturn.scale (RateOfReturn.scale ⟨v, a⟩ b) a = ⟨v, a⟩ :=
+  scale_round_trip id rfl v ha hb rfl hfit hv
+
+/-- **Sign.** A non-negative value stays non-negative (law non-negative at the factor) … -/
+theorem scale_nonneg (law : Rat → Rat) (m : Metric) (t : Interval)
+    (hl : 0 ≤ law (periods m.interval t)) (hv : 0 ≤ m.value) : 0 ≤ (m.scaleWith law t).value :=
+  scaleVal_nonneg hv hl
+
+/-- … a non-positive one stays non-positive **as long as the product does not fall below
+`Decimal::MIN`** ("negative returns should scale … while maintaining sign"); see
+`scale_negative_overflow_flips_sign` for what happens otherwise. -/
+theorem scale_nonpos (law : Rat → Rat) (m : Metric) (t : Interval)
+    (hl : 0 ≤ law (periods m.interval t)) (hv : m.value ≤ 0)
+    (hlo : decimalMin ≤ m.value * law (periods m.interval t)) : (m.scaleWith law t).value ≤ 0 :=
+  scaleVal_nonpos hv hl hlo
+
+/-- Zero stays zero. -/
+theorem scale_zero (law : Rat → Rat) (c t : Interval) : (Metric.scaleWith law ⟨0, c⟩ t).value = 0 := by
+  rw [scaleWith_value]
+  have : ((0 : Rat) * law (periods c t)).abs ≤ decimalMax := by rw [Rat.zero_mul]; decide
+  rw [scaleVal_eq this, Rat.zero_mul]
+
+/-- **Monotone.** Scaling two values from the same interval to the same target keeps their order
+(same proviso about the lower one). -/
+theorem scale_mono (law : Rat → Rat) (v1 v2 : Rat) (c t : Interval) (hl : 0 ≤ law (periods c t))
+    (h : v1 ≤ v2) (hlo : decimalMin ≤ v1 * law (periods c t)) :
+    (Metric.scaleWith law ⟨v1, c⟩ t).value ≤ (Metric.scaleWith law ⟨v2, c⟩ t).value :=
+  scaleVal_mono hl h hlo
+
+/-- A longer target interval has at least as many periods … -/
+theorem periods_mono_target {c t1 t2 : Interval} (h : t1.secs.abs ≤ t2.secs.abs) :
+    periods c t1 ≤ periods c t2 := BarterModel.Metrics.periods_mono_target h
+
+/-- … and a non-negative value scaled to it is at least as large (law monotone and non-negative at
+the two factors; saturation included). -/
+theorem scale_mono_target (law : Rat → Rat) (v : Rat) (c t1 t2 : Interval) (hv : 0 ≤ v)
+    (h0 : 0 ≤ law (periods c t1)) (hl : law (periods c t1) ≤ law (periods c t2)) :
+    (Metric.scaleWith law ⟨v, c⟩ t1).value ≤ (Metric.scaleWith law ⟨v, c⟩ t2).value :=
+  scaleVal_mono_factor hv h0 hl
+
+/-- **Why the root.** With IID returns, `n` periods have mean excess `n·(m − rf)` and deviation
+`√n·σ`; the ratio of those is the one-period ratio times `√n`. For any `law` that is a root at `n`
+(`law n · law n = n`, `law n ≠ 0`): `calculate` on the `n`-period quantities equals the one-period
+value times `law n` — which is what `scale` multiplies by (`scale_value`). -/
+theorem sharpe_scaling_is_iid_consistent (law : Rat → Rat) (n rf m σ : Rat) (p q : Interval)
+    (hroot : law n * law n = n) (hl : law n ≠ 0) (hσ : σ ≠ 0) :
+    (SharpeRatio.calculate (rf * n) (m * n) (σ * law n) q).value =
+      (SharpeRatio.calculate rf m σ p).value * law n := by
+  have h1 : σ * law n ≠ 0 := by
+    intro h
+    rcases Rat.mul_eq_zero.mp h with h | h
+    · exact hσ h
+    · exact hl h
+  simp only [SharpeRatio.calculate, h1, hσ, if_false]
+  have e : m * n - rf * n = (m - rf) * (law n * law n) := by rw [hroot]; grind
+  rw [e]
+  grind
+
+/-- Scaling to an interval without a whole second gives `0` (if `law 0 = 0`, as for `sqrt`, `id`). -/
+theorem scale_zero_target (law : Rat → Rat) (h0 : law 0 = 0) (v : Rat) {c t : Interval}
+    (hc : c.secs ≠ 0) (ht : t.secs = 0) : (Metric.scaleWith law ⟨v, c⟩ t).value = 0 := by
+  rw [scaleWith_value]; simp only
+  rw [periods_eq_div hc, ht, Rat.abs_zero, Rat.div_def, Rat.zero_mul, h0]; exact scaleVal_zero v
+
+/-! ## 4. Saturation, and what it does to the zero-risk conventions
+
+`value.checked_mul(scale).unwrap_or(Decimal::MAX)`: an overflowing product becomes `Decimal::MAX`
+— also when the product is *negative*. -/
+
+/-- Overflow in either direction yields `Decimal::MAX`. -/
+theorem scale_saturates (law : Rat → Rat) (m : Metric) (t : Interval)
+    (h : decimalMax < (m.value * law (periods m.interval t)).abs) :
+    (m.scaleWith law t).value = decimalMax := scaleVal_sat h
+
+/-- A negative value whose scaled product falls below `Decimal::MIN` is reported as `Decimal::MAX`:
+the sign flips. -/
+theorem scale_negative_overflow_flips_sign (law : Rat → Rat) (m : Metric) (t : Interval)
+    (h : m.value * law (periods m.interval t) < decimalMin) :
+    m.value * law (periods m.interval t) < 0 ∧ (m.scaleWith law t).value = decimalMax := by
+  have hmin : decimalMin < 0 := by decide
+  refine ⟨by grind, scale_saturates law m t ?_⟩
+  have hneg : ¬ 0 ≤ m.value * law (periods m.interval t) := by grind
+  unfold Rat.abs
+  rw [if_neg hneg]
+  have : decimalMin = -decimalMax := rfl
+  grind
+
+/-- `Decimal::MAX` ("very good") survives scaling by a factor ≥ 1 … -/
+theorem scale_max_preserved (law : Rat → Rat) (c t : Interval) (h : 1 ≤ law (periods c t)) :
+    (Metric.scaleWith law ⟨decimalMax, c⟩ t).value = decimalMax := by
+  rw [scaleWith_value]
+  rcases Rat.le_iff_lt_or_eq.mp h with h | h
+  · exact scaleVal_max_of_one_lt h
+  · simp only; rw [← h]; exact scaleVal_one (by decide)
+
+/-- … but is **lost** when the factor is below 1 (target interval shorter than the current one):
+the result is the finite number `MAX · factor < MAX`. -/
+theorem scale_max_lost (law : Rat → Rat) (c t : Interval) (h0 : 0 ≤ law (periods c t))
+    (h : law (periods c t) < 1) :
+    (Metric.scaleWith law ⟨decimalMax, c⟩ t).value = decimalMax * law (periods c t) ∧
+    (Metric.scaleWith law ⟨decimalMax, c⟩ t).value < decimalMax := by
+  have e : (Metric.scaleWith law ⟨decimalMax, c⟩ t).value = decimalMax * law (periods c t) := by
+    rw [scaleWith_value]
+    exact scaleVal_sentinel_of_le_one (show decimalMax.abs = decimalMax by decide) h0 (by grind)
+  refine ⟨e, ?_⟩
+  rw [e]
+  have := Rat.mul_lt_mul_of_pos_left h decimalMax_pos
+  rwa [Rat.mul_one] at this
+
+/-- `Decimal::MIN` ("very bad") scaled by a factor > 1 (target interval longer than the current
+one) becomes `Decimal::MAX` ("very good"). -/
+theorem scale_min_becomes_max (law : Rat → Rat) (c t : Interval) (h : 1 < law (periods c t)) :
+    (Metric.scaleWith law ⟨decimalMin, c⟩ t).value = decimalMax := by
+  rw [scaleWith_value]; exact scaleVal_min_of_one_lt h
+
+/-- With a factor in `[0, 1]` `Decimal::MIN` becomes the finite number `MIN · factor`. -/
+theorem scale_min_shrinks (law : Rat → Rat) (c t : Interval) (h0 : 0 ≤ law (periods c t))
+    (h : law (periods c t) ≤ 1) :
+    (Metric.scaleWith law ⟨decimalMin, c⟩ t).value = decimalMin * law (periods c t) := by
+  rw [scaleWith_value]; exact scaleVal_sentinel_of_le_one (show decimalMin.abs = decimalMax by decide) h0 h
+
+/-- What `calculate(..).scale(..)` — the composition `TearSheetGenerator::generate` uses — does to
+the documented special case "negative excess returns with no downside risk (very bad)": with a
+factor above 1 the Sortino and Calmar ratios come out as `Decimal::MAX`, the value documented for
+"positive excess returns with no downside risk (very good)". -/
+theorem very_bad_reported_as_very_good (sqrtFn : Rat → Rat) (rf m : Rat) (p t : Interval)
+    (hm : m < rf) (h : 1 < sqrtFn (periods p t)) :
+    (SortinoRatio.scale sqrtFn (SortinoRatio.calculate rf m 0 p) t).value = decimalMax ∧
+    (CalmarRatio.scale sqrtFn (CalmarRatio.calculate rf m 0 p) t).value = decimalMax ∧
+    (specSortino rf m 0) = .negInf ∧ (specCalmar rf m 0) = .negInf := by
+  have h1 : ¬ rf < m := by grind
+  have hs : SortinoRatio.calculate rf m 0 p = ⟨decimalMin, p⟩ := by
+    simp [SortinoRatio.calculate, h1, hm]
+  have hc : CalmarRatio.calculate rf m 0 p = ⟨decimalMin, p⟩ := by
+    simp [CalmarRatio.calculate, h1, hm]
+  have e1 : ¬ 0 < m - rf := by grind
+  have e2 : m - rf < 0 := by grind
+  refine ⟨?_, ?_, ?_, ?_⟩
+  · rw [hs]; exact scale_min_becomes_max sqrtFn p t h
+  · rw [hc]; exact scale_min_becomes_max sqrtFn p t h
+  · simp [specSortino, specRatio, e1, e2]
+  · simp [specCalmar, specRatio, e1, e2]
+
+/-! ## 5. `scale` against the documented intent
+
+The spec (`Model/Metrics.lean`, second half) works with exact interval lengths and extended values:
+`v ↦ v · law (B/A)`, `±∞ · k = ±∞` for `k > 0`. -/
+
+/-- On intervals that are whole seconds (all the named ones, and every `TimeDelta` a user would
+write in hours / days) a finite value that fits is scaled exactly as documented.
+`_partial`: refinement of `scale` to the spec on this domain only. Missing, and stated separately:
+other interval lengths (`periods_truncation_bounds`: bounded deviation), products that do not fit
+(`scale_saturates`), and the sentinel inputs, where the refinement is *false*
+(`scale_deviates_from_spec_on_min`, `scale_max_lost`). -/
+theorem scale_refines_spec_partial (law : Rat → Rat) (v : Rat) {c t : Interval}
+    (hc : c.interval % 1000 = 0) (ht : t.interval % 1000 = 0) (h0 : c.secs ≠ 0)
+    (hfit : InRange (v * law (periods c t))) :
+    specScaleSqrt law (.fin v) c t = some (.fin (Metric.scaleWith law ⟨v, c⟩ t).value) := by
+  have hv : (Metric.scaleWith law ⟨v, c⟩ t).value = v * law (periods c t) := by
+    rw [scaleWith_value]; exact scaleVal_eq hfit
+  simp [specScaleSqrt, specPeriods_eq_of_whole hc ht h0, Ext.scaleBy, hv]
+
+theorem ror_scale_refines_spec_partial (v : Rat) {c t : Interval}
+    (hc : c.interval % 1000 = 0) (ht : t.interval % 1000 = 0) (h0 : c.secs ≠ 0)
+    (hfit : InRange (v * periods c t)) :
+    specScaleLinear (.fin v) c t = some (.fin (RateOfReturn.scale ⟨v, c⟩ t).value) := by
+  have hv : (RateOfReturn.scale ⟨v, c⟩ t).value = v * periods c t := by
+    rw [RateOfReturn.scale, scaleWith_value]; exact scaleVal_eq hfit
+  simp [specScaleLinear, specPeriods_eq_of_whole hc ht h0, Ext.scaleBy, hv]
+
+/-- For other intervals the code truncates both lengths to whole seconds; the documented number of
+periods `n = B/A` then lies within `|T|/(|S|+1) ≤ n < (|T|+1)/|S|` of the `|T|/|S|` the code uses
+(for a trading period of days the relative deviation is below 10⁻⁵). -/
+theorem periods_truncation_bounds {c t : Interval} (h0 : c.secs ≠ 0) :
+    ∃ n, specPeriods c t = some n ∧
+      t.secs.abs / (c.secs.abs + 1) ≤ n ∧ n < (t.secs.abs + 1) / c.secs.abs :=
+  specPeriods_bounds h0
+
+/-- The documented intent for the zero-risk conventions: an "infinitely good / bad" ratio stays so
+under a positive factor … -/
+theorem spec_preserves_infinities (law : Rat → Rat) {c t : Interval} (n : Rat)
+    (hn : specPeriods c t = some n) (hk : law n ≠ 0) :
+    specScaleSqrt law .posInf c t = some .posInf ∧ specScaleSqrt law .negInf c t = some .negInf := by
+  simp [specScaleSqrt, hn, Ext.scaleBy, hk]
+
+/-- … which the code does not do: on whole-second intervals with a factor above 1 the spec keeps
+`−∞` (reported as `Decimal::MIN`) while `scale` returns `Decimal::MAX`. The spec driver is silent
+on sentinel inputs for this reason (see `props/C16M.py`). -/
+theorem scale_deviates_from_spec_on_min (law : Rat → Rat) {c t : Interval}
+    (hc : c.interval % 1000 = 0) (ht : t.interval % 1000 = 0) (h0 : c.secs ≠ 0)
+    (h : 1 < law (periods c t)) :
+    (specScaleSqrt law .negInf c t).map Ext.toDecimal = some decimalMin ∧
+    (Metric.scaleWith law ⟨decimalMin, c⟩ t).value = decimalMax ∧ decimalMin ≠ decimalMax := by
+  have hk : law (periods c t) ≠ 0 := by grind
+  refine ⟨?_, scale_min_becomes_max law c t h, by decide⟩
+  rw [(spec_preserves_infinities law (periods c t) (specPeriods_eq_of_whole hc ht h0) hk).2]
+  rfl
+
+/-! ## 6. The tear sheet of a history
+
+`sheetOf f t0 ps rf iv`: `TearSheetGenerator::init(t0)`, one `update_from_position` per element of
+`ps` (oldest first), then `generate(rf, iv)`. `f` is the square root (both `Dispersion::update`'s and
+`scale`'s). -/
+
+def sheetOf (f : Rat → Rat) (t0 : Int) (ps : List Exit) (rf : Rat) (iv : Interval) : Sheet :=
+  ((Gen.run f (Gen.init t0) ps).generate f rf iv).2
+
+/-- The maximum drawdown of the cumulative-PnL curve of a history (`0` when there is none). -/
+def maxDrawdownOf (ps : List Exit) : Rat :=
+  ((Drawdown.specMax (Drawdown.reported (specCurve ps))).map (·.value)).getD 0
+
+/-- **Refinement.** For every history, risk-free return and target interval, the generated sheet
+holds: the summed PnL; and for each of the four metrics `calculate` — i.e. (by §2) the documented
+quotient / convention — of the whole-dataset mean return, the whole-dataset population standard
+deviation of all returns (Sharpe) resp. of the negative returns (Sortino), the maximum drawdown of
+the cumulative PnL curve (Calmar), over the trading period `max(now − start, 1 s)`, then `scale`d to
+the requested interval; and the drawdown report of C18. -/
+theorem sheet_refines (f : Rat → Rat) (t0 : Int) (ps : List Exit) (rf : Rat) (iv : Interval) :
+    let sh := sheetOf f t0 ps rf iv
+    let period := specTradingPeriod t0 ps
+    let m := specMetrics f rf ps (maxDrawdownOf ps)
+    sh.pnl = TearSheet.specPnl (ps.map (·.closed)) ∧
+    sh.pnlReturn = RateOfReturn.scale ⟨m.pnlReturn.toDecimal, period⟩ iv ∧
+    sh.sharpeRatio = SharpeRatio.scale f ⟨m.sharpe.toDecimal, period⟩ iv ∧
+    sh.sortinoRatio = SortinoRatio.scale f ⟨m.sortino.toDecimal, period⟩ iv ∧
+    sh.calmarRatio = CalmarRatio.scale f ⟨m.calmar.toDecimal, period⟩ iv ∧
+    sh.drawdowns = ⟨(Drawdown.decompose (specCurve ps)).2,
+      Drawdown.specMean (Drawdown.reported (specCurve ps)),
+      Drawdown.specMax (Drawdown.reported (specCurve ps))⟩ := by
+  obtain ⟨_, hp, ht, hl, hpnl, hs⟩ := run_init f t0 ps
+  obtain ⟨g1, g2, g3, g4, g5, g6⟩ := generate_fields f (Gen.run f (Gen.init t0) ps) rf iv
+  have hrep := Props.C18.first_generate_report (specCurve ps)
+  have mk : ∀ m : Metric, m = ⟨m.value, m.interval⟩ := fun m => rfl
+  simp only [sheetOf, specMetrics]
+  refine ⟨by rw [g1, hpnl], ?_, ?_, ?_, ?_, ?_⟩
+  · rw [g2, hp, ht]; rfl
+  · rw [g3, hp, ht, specSummary_mean, specSummary_stdDev,
+      mk (SharpeRatio.calculate _ _ _ _), (sharpe_calculate_refines _ _ _ _).1,
+      (sharpe_calculate_refines _ _ _ _).2]
+  · rw [g4, hp, ht, hl, specSummary_mean, specSummary_stdDev,
+      mk (SortinoRatio.calculate _ _ _ _), (sortino_calculate_refines _ _ _ _).1,
+      (sortino_calculate_refines _ _ _ _).2]
+  · rw [g5, hp, ht, hs, hrep, specSummary_mean,
+      mk (CalmarRatio.calculate _ _ _ _), (calmar_calculate_refines _ _ _ _).1,
+      (calmar_calculate_refines _ _ _ _).2]
+    rfl
+  · rw [g6, hs, hrep]
+
+/-- The trading period always has at least one whole second, so `generate` never takes the
+`unwrap_or(Decimal::MAX)` branch of the factor: it is `|target secs| / period secs`. -/
+theorem sheet_factor (t0 : Int) (ps : List Exit) (iv : Interval) :
+    (∃ k : Int, 1 ≤ k ∧ (specTradingPeriod t0 ps).secs = (k : Rat)) ∧
+    periods (specTradingPeriod t0 ps) iv = iv.secs.abs / (specTradingPeriod t0 ps).secs.abs :=
+  ⟨tradingPeriod_secs t0 ps, periods_eq_div (tradingPeriod_secs_ne_zero t0 ps)⟩
+
+/-- Closed form of the tear sheet's Sharpe ratio when the returns have dispersion and the product
+fits: `(mean − rf) / σ · sqrt(|target secs| / period secs)`. -/
+theorem sheet_sharpe_value (f : Rat → Rat) (t0 : Int) (ps : List Exit) (rf : Rat) (iv : Interval)
+    (hσ : specStdDev f (returns ps) ≠ 0)
+    (hfit : InRange ((DataSet.specMean (returns ps) - rf) / specStdDev f (returns ps) *
+      f (iv.secs.abs / (specTradingPeriod t0 ps).secs.abs))) :
+    (sheetOf f t0 ps rf iv).sharpeRatio.value =
+      (DataSet.specMean (returns ps) - rf) / specStdDev f (returns ps) *
+        f (iv.secs.abs / (specTradingPeriod t0 ps).secs.abs) := by
+  have h := (sheet_refines f t0 ps rf iv).2.2.1
+  rw [h]
+  simp only [specMetrics, specSharpe, hσ, if_false, Ext.toDecimal]
+  exact scale_value f _ (tradingPeriod_secs_ne_zero t0 ps) hfit
+
+/-- Closed form of the tear sheet's rate of return: `mean · |target secs| / period secs`. -/
+theorem sheet_ror_value (f : Rat → Rat) (t0 : Int) (ps : List Exit) (rf : Rat) (iv : Interval)
+    (hfit : InRange (DataSet.specMean (returns ps) *
+      (iv.secs.abs / (specTradingPeriod t0 ps).secs.abs))) :
+    (sheetOf f t0 ps rf iv).pnlReturn.value =
+      DataSet.specMean (returns ps) * (iv.secs.abs / (specTradingPeriod t0 ps).secs.abs) := by
+  have h := (sheet_refines f t0 ps rf iv).2.1
+  rw [h]
+  simp only [specMetrics, Ext.toDecimal]
+  exact ror_scale_linear _ (tradingPeriod_secs_ne_zero t0 ps) hfit
+
+/-- Win rate and profit factor of the full generator are the ones C16 specifies. -/
+theorem sheet_win_rate_profit_factor (f : Rat → Rat) (t0 : Int) (ps : List Exit) (rf : Rat)
+    (iv : Interval) :
+    (sheetOf f t0 ps rf iv).winRate = TearSheet.specWinRate (ps.map (·.closed)) ∧
+    (sheetOf f t0 ps rf iv).profitFactor =
+      (TearSheet.specProfitFactor (ps.map (·.closed))).toOption := by
+  obtain ⟨c1, c2, c3, c4⟩ := counts_sums_eq_c16 f t0 ps
+  have h := Props.C16.tear_sheet_refines_spec (ps.map (·.closed))
+  have hw : (Props.C16.sheet (ps.map (·.closed))).winRate =
+      TearSheet.specWinRate (ps.map (·.closed)) := by rw [h]; rfl
+  have hp : (Props.C16.sheet (ps.map (·.closed))).profitFactor =
+      (TearSheet.specProfitFactor (ps.map (·.closed))).toOption := by rw [h]; rfl
+  constructor
+  · rw [← hw]
+    simp only [sheetOf, Gen.generate, Props.C16.sheet, TearSheet.TearSheetGenerator.generate, c1, c3]
+  · rw [← hp]
+    simp only [sheetOf, Gen.generate, Props.C16.sheet, TearSheet.TearSheetGenerator.generate, c2, c4]
+
+/-- **Any interleaving.** Earlier `generate` calls (which mutate the drawdown mean / max
+generators) do not influence PnL, rate of return, Sharpe, Sortino, win rate and profit factor of a
+later one: after any sequence of `update_from_position` / `generate` calls these six fields are the
+ones of the positions alone. (Calmar and the drawdown report read the mutated generators:
+`sheet_refines` speaks about the first `generate`, as C18 does.) -/
+theorem sheet_any_interleaving (f : Rat → Rat) (t0 : Int) (steps : List Step) (rf : Rat)
+    (iv : Interval) :
+    let sh := ((Gen.exec f (Gen.init t0) steps).generate f rf iv).2
+    let sh' := sheetOf f t0 (positionsOf steps) rf iv
+    sh.pnl = sh'.pnl ∧ sh.pnlReturn = sh'.pnlReturn ∧ sh.sharpeRatio = sh'.sharpeRatio ∧
+    sh.sortinoRatio = sh'.sortinoRatio ∧ sh.winRate = sh'.winRate ∧
+    sh.profitFactor = sh'.profitFactor :=
+  generate_of_core f _ _ (core_exec f steps _ _ rfl) rf iv
+
+/-- The documented special case "negative excess returns with no downside risk (very bad)" at the
+tear-sheet level: whenever the history's mean return is below the risk-free return, its losing
+returns have zero deviation (at most one losing position, or all losses equal) and the requested
+interval is longer than the trading period by a factor whose root exceeds 1, the sheet's Sortino
+ratio is `Decimal::MAX` — the value documented for "very good". -/
+theorem sheet_sortino_very_bad_is_max (f : Rat → Rat) (t0 : Int) (ps : List Exit) (rf : Rat)
+    (iv : Interval) (hmean : DataSet.specMean (returns ps) < rf)
+    (hdev : specStdDev f (lossReturns ps) = 0)
+    (hfac : 1 < f (periods (specTradingPeriod t0 ps) iv)) :
+    (sheetOf f t0 ps rf iv).sortinoRatio.value = decimalMax ∧
+    (specMetrics f rf ps (maxDrawdownOf ps)).sortino = .negInf := by
+  have h := (sheet_refines f t0 ps rf iv).2.2.2.1
+  have hv := very_bad_reported_as_very_good f rf (DataSet.specMean (returns ps))
+    (specTradingPeriod t0 ps) iv hmean hfac
+  have e : (specMetrics f rf ps (maxDrawdownOf ps)).sortino = .negInf := by
+    simp only [specMetrics, hdev]; exact hv.2.2.1
+  refine ⟨?_, e⟩
+  rw [h, e]
+  exact scale_min_becomes_max f _ _ hfac
+
+/-! ## Non-vacuity
+
+Concrete, non-trivial values satisfying the hypotheses used above (and the conclusions evaluated on
+them), with the executable square root the drivers run (`DataSet.sqrtApprox`, √ truncated to 30
+decimal places) and with the identity (the rate-of-return law). -/
+
+section NonVacuity
+/-- the executable root the drivers plug in -/
+abbrev sqrtApprox : Rat → Rat := DataSet.sqrtApprox
+
+def twoHours : Interval := .delta 7200000
+def eightHours : Interval := .delta 28800000
+def tenDays : Interval := .delta 864000000
+
+example : InRange ((5 : Rat) / 100 * 252) := by decide +kernel
+example : twoHours.secs ≠ 0 ∧ eightHours.secs ≠ 0 ∧ tenDays.secs ≠ 0 := by decide +kernel
+example : twoHours.interval % 1000 = 0 ∧ Interval.annual365.interval % 1000 = 0 := by decide
+/-- the unit tests' custom intervals: 2 h → 8 h is a factor 4, whose root is 2 -/
+example : periods twoHours eightHours = 4 ∧ sqrtApprox 4 = 2 ∧ sqrtApprox 1 = 1 ∧ sqrtApprox 0 = 0 := by
+  decide +kernel
+example : (SortinoRatio.scale sqrtApprox ⟨5 / 100, twoHours⟩ eightHours).value = 1 / 10 := by
+  decide +kernel
+/-- `scale_scale` / `scale_round_trip`: the law is multiplicative at the factors involved
+(2 h → 8 h → 72 h: 4 · 9 = 36), and the intermediate value fits -/
+example : sqrtApprox (4 * 9) = sqrtApprox 4 * sqrtApprox 9 ∧
+    sqrtApprox (4 * (1 / 4)) = sqrtApprox 4 * sqrtApprox (1 / 4) ∧
+    InRange ((5 : Rat) / 100 * sqrtApprox 4) := by decide +kernel
+example : ((Metric.scaleWith sqrtApprox ⟨5 / 100, twoHours⟩ eightHours).scaleWith sqrtApprox
+    (.delta 259200000)) = ⟨3 / 10, .delta 259200000⟩ := by decide +kernel
+/-- `sharpe_scaling_is_iid_consistent`: the executable root is an exact root at 4 -/
+example : sqrtApprox 4 * sqrtApprox 4 = 4 ∧ sqrtApprox 4 ≠ 0 := by decide +kernel
+/-- factor above / below one -/
+example : 1 < sqrtApprox (periods tenDays .annual365) ∧
+    0 ≤ sqrtApprox (periods .annual365 .daily) ∧ sqrtApprox (periods .annual365 .daily) < 1 := by
+  decide +kernel
+/-- the unit-test special cases of `calculate` -/
+example : (SharpeRatio.calculate (1 / 1000) (2 / 1000) 0 twoHours).value = decimalMax ∧
+    (SortinoRatio.calculate (2 / 1000) (1 / 1000) 0 .daily).value = decimalMin ∧
+    (CalmarRatio.calculate (1 / 1000) (1 / 1000) 0 .daily).value = 0 ∧
+    (CalmarRatio.calculate (1 / 1000) (2 / 1000) (-15 / 1000) .daily).value = 1 / 15 := by
+  decide +kernel
+
+/-- a history: +10 %, −20 %, +20 %, −5 %, +30 % over five days, engine started at `t = 1 s` -/
+def history : List Exit :=
+  [⟨86401000, ⟨10, 100, 1⟩⟩, ⟨172801000, ⟨-20, 100, 1⟩⟩, ⟨259201000, ⟨20, 100, 1⟩⟩,
+   ⟨345601000, ⟨-5, 100, 1⟩⟩, ⟨432001000, ⟨30, 100, 1⟩⟩]
+
+example : specTradingPeriod 1000 history = .delta 432000000 := by decide +kernel
+example : DataSet.specMean (returns history) = 7 / 100 ∧ lossReturns history = [-1 / 5, -1 / 20] ∧
+    specStdDev sqrtApprox (returns history) ≠ 0 ∧ maxDrawdownOf history = 2 := by decide +kernel
+example : (sheetOf sqrtApprox 1000 history (15 / 10000) .daily).pnlReturn.value = 7 / 500 := by
+  decide +kernel
+
+/-- `sheet_sortino_very_bad_is_max`: one losing position after ten days, annualised -/
+def oneLoss : List Exit := [⟨864000000, ⟨-5, 100, 1⟩⟩]
+
+example : DataSet.specMean (returns oneLoss) < 0 ∧ specStdDev sqrtApprox (lossReturns oneLoss) = 0 ∧
+    1 < sqrtApprox (periods (specTradingPeriod 0 oneLoss) .annual365) := by decide +kernel
+example : (sheetOf sqrtApprox 0 oneLoss 0 .annual365).sortinoRatio.value = decimalMax ∧
+    (sheetOf sqrtApprox 0 oneLoss 0 .annual365).pnlReturn.value < 0 := by decide +kernel
+
+end NonVacuity
+
 end BarterModel.Props.C16M
